@@ -531,9 +531,10 @@ def run_threaded_pending(case: Dict[str, Any]) -> Dict[str, Any]:
         while real_time.time() < end and not any(e[1] > T and e[2] for e in _evals[n_before:]):
             real_time.sleep(0.005)
         seen = [e for e in _evals[n_before:] if e[1] > T and e[2]]
-        if not seen:
-            inconclusive = 'reaper-never-looked-at-the-stalled-connection'
-            raise TimeoutError()
+        # the hooked is_inactive() is only where a reaper is EXPECTED to look; one that decides elsewhere is judged by what the
+        # peers see all the same: without an observed evaluation a complete delivery proves nothing (inconclusive), but a
+        # connection closed with output pending is a violation whoever closed it
+        unseen = not seen
         obs['overdue_with_pending_output_evaluations'] = len(seen)
         real_time.sleep(0.1)            # a reaper that (wrongly) fired has left its loop by now
         # the rest of the flood and a tail follow; the client reads again
@@ -553,7 +554,9 @@ def run_threaded_pending(case: Dict[str, Any]) -> Dict[str, Any]:
             if not rest:
                 real_time.sleep(0.001)
         got = bytes(client.rx[head_len:])
-        if got == want:
+        if got == want and unseen:
+            inconclusive = 'reaper-never-looked-at-the-stalled-connection'
+        elif got == want:
             obs['pending_output_threaded_delivered'] = 1
         elif client.ended or oc.send_error:
             viol.append({'key': '%s|closed-with-output-pending' % feat,
